@@ -79,9 +79,9 @@ def gen_case(rng, tier):
         c["size"] = nsect * SECTOR
         size = c["size"]
     else:
-        spb = rng.weighted([(1, 1), (2, 2), (4, 3), (8, 3), (16, 2), (64, 1), (4096, 1)])
+        spb = rng.weighted([(1, 1), (2, 2), (3, 1), (4, 3), (8, 3), (16, 2), (24, 1), (64, 1), (4096, 1), (16384, 1), (65536, 1)])
         maxb = 40 if tier == "thorough" else 12
-        nblocks = rng.randint(1, maxb if spb < 4096 else 4)
+        nblocks = rng.randint(1, maxb if spb < 4096 else (4 if spb == 4096 else 3))
         bs = spb * SECTOR
         cut = rng.weighted([(0, 3), (SECTOR * rng.randrange(0, spb), 3), (rng.randrange(0, bs), 1)])
         size = max(SECTOR if spb > 1 else 1, nblocks * bs - cut)
